@@ -34,10 +34,7 @@ class Uniform(Distribution):
             # probability (pdf) as 1 divided by the area, the convert 
             # to logpdf. Special case if scalar.
             diff = self.high - self.low
-            if isinstance(diff, (list, tuple, np.ndarray)): 
-                v= np.prod(diff)
-            else:
-                v = diff
+            v = np.prod(np.broadcast_to(diff, (self.dim,)))
             return_val = np.log(1.0/v)
         return return_val
 
